@@ -652,10 +652,11 @@ pub fn run(ctx: &mut Ctx) {
     ctx.rule = "input sets built to be order-sensitive (multi-module programs from the rich generator with by-value chains, base/derived pairs, marker chains, enums as fields; dependency graphs of the C10 generator incl. unresolvable ones; dedicated sets: explicit address on a vftable-carrying base, references to generated <T>Vftable structs from fields and signatures, user type named like a generated struct, mutual cross-module references, extern values). For each set: every priority permutation of the user items through the work-list hook (complete up to 6 items, sampled beyond), priorities re-drawn whenever a new key is registered, every module addition order and write order (<=4 modules), repeated in-process builds (fresh hash keys) and fresh child processes running pyxis::build on a real directory; all runs of a set must agree on Ok/Err and on every output byte. non-trivial = set with >=3 user items and >=2 distinct observed work-list orders; distinct by structural hash".into();
     let seed = ctx.seed;
     let perm_limit = ctx.tier.pick(720usize, 5040);
-    let repeats = ctx.tier.pick(20usize, 200);
-    let children = ctx.tier.pick(3usize, 12);
-    let n_random = ctx.tier.pick(50usize, 600);
-    let n_graphs = ctx.tier.pick(50usize, 600);
+    // (thorough sizes chosen so that the check takes about a quarter of an hour on 16 idle cores)
+    let repeats = ctx.tier.pick(20usize, 120);
+    let children = ctx.tier.pick(3usize, 8);
+    let n_random = ctx.tier.pick(50usize, 300);
+    let n_graphs = ctx.tier.pick(50usize, 300);
 
     let mut inputs: Vec<(String, Mods, usize)> = vec![];
     for (name, mods, ptrw) in dedicated_inputs() {
